@@ -27,13 +27,34 @@ def rfa_case(draw, ctx, strategies=None, m_lo=2, m_hi=None, n_hi=None, ykinds=No
     kw = draw(gens.rfa_params(name, n, exp_lo=exp_lo, smooth_default=smooth_default, alpha_hi=alpha_hi))
     case = dict(strategy=name, x=s["x"], y=s["y"], n=n, kw=kw, xkind=s["xkind"], ykind=s["ykind"], xint=s["xint"],
                 as_list=s["as_list"])
+    # integer-valued averages may arrive in any integer dtype (counters: unsigned, narrow)
+    yv = s["y"]
+    if all(float(v).is_integer() for v in yv) and draw(st.integers(0, 2)) == 0:
+        lo, hi = min(yv), max(yv)
+        ok = [d for d, (a, b) in {"int8": (-128, 127), "int16": (-2 ** 15, 2 ** 15 - 1), "int32": (-2 ** 31, 2 ** 31 - 1),
+                                  "int64": (-2 ** 62, 2 ** 62), "uint8": (0, 255), "uint16": (0, 2 ** 16 - 1),
+                                  "uint32": (0, 2 ** 32 - 1), "uint64": (0, 2 ** 62)}.items() if a <= lo and hi <= b]
+        if ok:
+            case["ydtype"] = draw(st.sampled_from(ok))
     return case
 
 
+def _fits(values, dtype):
+    info = np.iinfo(dtype)
+    return all(float(v).is_integer() and info.min <= v <= info.max for v in values)
+
+
 def inputs(case):
+    # derived cases (mapped / perturbed values) may no longer be representable in the drawn integer dtype
+    if case.get("ydtype") and not _fits(case["y"], case["ydtype"]):
+        case = dict(case, ydtype=None)
     if case.get("as_list"):
+        if case.get("ydtype"):
+            return list(case["x"]), [int(v) for v in case["y"]]
         return list(case["x"]), list(case["y"])
     x = np.array(case["x"], dtype=np.int64 if case.get("xint") else float)
+    if case.get("ydtype"):
+        return x, np.array([int(v) for v in case["y"]], dtype=case["ydtype"])
     return x, np.array(case["y"], dtype=float)
 
 
@@ -90,6 +111,8 @@ def classes(case):
         cls.append("list-input")
     if case.get("xint"):
         cls.append("int-x")
+    if case.get("ydtype"):
+        cls.append("y:" + case["ydtype"])
     return cls
 
 
